@@ -170,7 +170,15 @@ Probe   == Ev.e = "Probe" /\ Advance(inst, IF ProbeOpt(Ev.codes) = inst[Ev.i].op
 Exec    == Ev.e = "Exec" /\ Advance(inst, IF "expect" \in DOMAIN Ev /\ Ev.rax # Ev.expect THEN "C08:executed-value" ELSE "")
 Asm     == Ev.e = "Asm" /\ LET s == inst[Ev.i] IN
              Advance([inst EXCEPT ![Ev.i].off = Ev.off1, ![Ev.i].cap = IF Ev.inj THEN CapAfterFault(Ev, s) ELSE NewCap(Ev, s, FALSE)], JudgeCall(Ev, s, FALSE))
-Count   == Ev.e = "Count" /\ LET s == inst[Ev.i] IN
+\* a counting call without a place for the count (dest = NULL): it may refuse (chunk size >= 2) or assemble plainly, never crash or move the offset when refusing
+CountNull == Ev.e = "Count" /\ "nulld" \in DOMAIN Ev /\ Ev.nulld /\ LET s == inst[Ev.i] IN
+             Advance([inst EXCEPT ![Ev.i].off = Ev.off1, ![Ev.i].cap = IF Ev.lastcap < 0 THEN s.cap ELSE Ev.lastcap],
+                     IF Ev.ret \notin {0, 1} THEN "C09:return-value"
+                     ELSE IF Ev.ret = 1 /\ Ev.off1 # Ev.off0 THEN "C15:failed-call-moved-offset"
+                     ELSE IF Ev.ret = 0 /\ Ev.c >= 2 THEN "C14:count-lost-without-error"
+                     ELSE IF s.ext /\ Ev.outside # 0 THEN "C07:outside-buffer"
+                     ELSE "")
+Count   == Ev.e = "Count" /\ ~("nulld" \in DOMAIN Ev /\ Ev.nulld) /\ LET s == inst[Ev.i] IN
              Advance([inst EXCEPT ![Ev.i].off = Ev.off1, ![Ev.i].cap = IF Ev.inj THEN CapAfterFault(Ev, s) ELSE NewCap(Ev, s, TRUE)], JudgeCall(Ev, s, TRUE))
 
 \* C12 on the learned code table: the code of a line changes only with the option dimensions the line depends on
@@ -180,7 +188,7 @@ Sens    == Ev.e = "Sens" /\
            Advance(inst, IF \E a \in 0..11, b \in 0..11 : SameOn({Ev.dims[k] : k \in 1..Len(Ev.dims)}, a, b) /\ CODES[Ev.key][a + 1] # CODES[Ev.key][b + 1]
                          THEN "C12:option-dimension-changes-a-line-it-does-not-govern" ELSE "")
 
-Next == l <= Len(Tr) /\ (Sens \/ Create \/ Destroy \/ Reset \/ Fault \/ Other \/ BinFile \/ Skip2 \/ Opt \/ SetChunk \/ SetOffset \/ Probe \/ Exec \/ Asm \/ Count)
+Next == l <= Len(Tr) /\ (Sens \/ CountNull \/ Create \/ Destroy \/ Reset \/ Fault \/ Other \/ BinFile \/ Skip2 \/ Opt \/ SetChunk \/ SetOffset \/ Probe \/ Exec \/ Asm \/ Count)
 Spec == Init /\ [][Next]_vars
 Accepted == TLCGet("stats").diameter = Len(Tr) /\ PrintT(<<"JUDGED", Len(Tr) - 1>>)
 =============================================================================
